@@ -113,6 +113,21 @@ func (w *l1World) checkSnapshots() error {
 			if got, want := sim.Canon(fresh.(orda.Datatype).ToJSON()), sim.Canon(st.JSON()); got != want {
 				return fmt.Errorf("stored snapshot of %s at version %d is not the replay of log operations 1..%d:\n  snapshot: %s\n  replay:   %s", k.Name, v, v, got, want)
 			}
+			// sizes and element reads too: against a fresh instance fed log operations 1..v
+			log, _ := w.storedLog(k.duid)
+			var prefix []*model.Operation
+			for _, so := range log {
+				if so.sseq <= v {
+					prefix = append(prefix, so.op)
+				}
+			}
+			replay, err := replayInstance(k, prefix)
+			if err != nil {
+				return err
+			}
+			if got, want := sim.Observe(k.Kind, fresh, l1ReadKeys), sim.Observe(k.Kind, replay, l1ReadKeys); got != want {
+				return fmt.Errorf("stored snapshot of %s at version %d has the JSON view of log operations 1..%d but its size or element reads differ from their replay:\n  snapshot: %s\n  replay:   %s", k.Name, v, v, got, want)
+			}
 		}
 		for _, ud := range dump[w.env.DBName+"."+w.col] {
 			if bstr(bget(ud, "_id")) != k.Name {
@@ -170,6 +185,7 @@ func TestC11(t *testing.T) {
 			"oracle after every release and at the end: every document in -_-Snapshots {duid, sseq=v} imports into a fresh instance whose state equals refmodel(log[1..v]); the user-collection document (without _id/_orda_ver_) equals the JSON view of refmodel(log[1.._orda_ver_]); over the write history of the user collection the recorded version never decreases; "+
 			"the server's rebuild (latest snapshot + later operations) reflects the end of the log and equals the replay of the whole log; "+
 			"non-trivial = >=1 held update was released after >=1 later push had been committed, or >=2 held updates were released in non-arrival order; distinct = hash of the action sequence")
+	col.Assume(deploymentNote)
 	checkProp(t, "C11", col, func(c *caseCtx) {
 		rt := c.rt
 		nk := rapid.IntRange(1, 2).Draw(rt, "keys")
@@ -178,17 +194,17 @@ func TestC11(t *testing.T) {
 			kinds = append(kinds, kindFromDraw(rt))
 		}
 		idseed := rapid.Uint64Range(1, 1<<40).Draw(rt, "idseed")
+		dep := drawDeployment(rt)
 		w, err := newL1World(idseed, kinds)
 		if err != nil {
 			c.failf("HARNESS-ERROR: %v", err)
 		}
 		defer w.close()
 		defer w.env.Mongo.DisableGate()
-		c.j.Header = map[string]interface{}{"kinds": kinds, "id_seed": idseed}
 		// where a background update is held: on arrival of its first command (it has read nothing yet), or
 		// at the reply of its read of the operation log (what it is going to store is already decided)
 		lateReply := rapid.Bool().Draw(rt, "hold_at_reply_of_log_read")
-		c.j.Header = map[string]interface{}{"kinds": kinds, "id_seed": idseed, "hold_at_reply_of_log_read": lateReply}
+		c.j.Header = map[string]interface{}{"kinds": kinds, "id_seed": idseed, "hold_at_reply_of_log_read": lateReply, "deployment": dep}
 		gateOn := func() {
 			if lateReply {
 				// only reads issued by background work: a client request in flight is never held
@@ -274,11 +290,11 @@ func TestC11(t *testing.T) {
 		if err := w.checkLogInvariants(); err != nil {
 			c.failf("at the end: %v", err)
 		}
-		if u := w.env.Mongo.UnknownCommands(); len(u) > 0 {
-			c.failf("HARNESS-ERROR: unknown commands %v", u)
+		if err := w.infraProblem(); err != nil {
+			c.failf("%v", err)
 		}
 		nsnap := len(w.env.Mongo.Dump()[w.env.DBName+".-_-Snapshots"])
-		var labels []string
+		labels := []string{dep}
 		if lateRelease {
 			labels = append(labels, "update-released-after-later-push")
 		}
